@@ -7,6 +7,9 @@ Lines (tab separated; integers decimal, Dec values raw 10^-18 integers):
   pool.withdraw  rx ry ps pc fee         <ok|panic> x y
   pool.create    x y min max init        <ok|err|panic> rx ry ps transX transY <ok|panic|-> price
   pool.derive    rx ry min max           <ok|panic> transX transY <ok|panic|-> price
+  pool.setbal    rx0 ry0 min max rx ry derive tx0 ty0  <ok|panic> transX transY <ok|panic|-> price  <ok|panic> ftx fty <ok|panic|-> fprice
+      the pool `NewRangedPool(rx0, ry0, 1, min, max)` (translation tx0, ty0) after `SetBalances(rx, ry, derive)`; the last
+      group is the FRESH pool `NewRangedPool(rx, ry, 1, min, max)`
 (`-` for fields that do not exist for the outcome.)
 
 DIFF = the model does not reproduce the real output exactly.
@@ -14,6 +17,7 @@ MON  = a law of C06 is false on the REAL output (names are stable):
   deposit_no_panic deposit_takes_at_most_offered deposit_rate_not_better deposit_reserves_per_share
   withdraw_no_panic withdraw_at_most_prorata withdraw_reserves_per_share last_share_gets_all
   ranged_price_in_range ranged_create_takes_at_most_offered (the latter is monitored only, no theorem)
+  ranged_fixed_translation_kept ranged_price_within_own_endpoints (derive = false)   ranged_rederive_is_fresh (derive = true)
 -/
 -- DRIVER: prefix=pool ns=Comdex.Drv.Pool
 namespace Comdex.Drv.Pool
@@ -129,12 +133,50 @@ def handleDerive (seq : String) (args : List String) (rest : List String) : List
     d ++ mons
   | _ => [s!"BAD\t{seq}\tderive args"]
 
+def handleSetbal (seq : String) (args : List String) (derive : String) (rest : List String) : List String :=
+  match ints args, parseBool? derive with
+  | some [rx0, ry0, minP, maxP, rx, ry], some dv =>
+    let m := match newRangedPool rx0 ry0 1 minP maxP with
+      | .error _ => "-\t-\tpanic\t-\t-\t-\t-"
+      | .ok p0 =>
+        s!"{p0.transX}\t{p0.transY}\t" ++
+        (match setBalances p0 rx ry dv with
+         | .error _ => "panic\t-\t-\t-\t-"
+         | .ok p => s!"ok\t{p.transX}\t{p.transY}\t{showPrice p}")
+    let mf := match newRangedPool rx ry 1 minP maxP with
+      | .error _ => "panic\t-\t-\t-\t-"
+      | .ok p => s!"ok\t{p.transX}\t{p.transY}\t{showPrice p}"
+    let r := "\t".intercalate rest
+    let d := diff seq s!"setbal {rx0} {ry0} {minP} {maxP} {rx} {ry} {derive}" (m ++ "\t" ++ mf) r
+    let mons := match rest with
+      | [tx0, ty0, "ok", tx, ty, po, pv, fo, ftx, fty, fpo, fpv] =>
+        if dv then
+          -- REAL re-derived pool = REAL fresh pool
+          mon seq "ranged_rederive_is_fresh" (fo = "ok" && tx = ftx && ty = fty && po = fpo && pv = fpv) ++
+          monPrice seq minP maxP po pv
+        else
+          (match parseInt? tx0, parseInt? ty0 with
+           | some tx0, some ty0 =>
+             mon seq "ranged_fixed_translation_kept" (tx = toString tx0 && ty = toString ty0) ++
+             (if po = "ok" && decide (0 ≤ tx0 ∧ 0 < ty0 ∧ 0 ≤ rx ∧ 0 ≤ ry) then
+               match parseInt? pv with
+               | some price =>
+                 mon seq "ranged_price_within_own_endpoints"
+                   (decide (Dec.quo tx0 (Dec.add (toDec ry) ty0) ≤ price ∧ price ≤ Dec.quo (Dec.add (toDec rx) tx0) ty0))
+               | none => [s!"BAD\t{seq}\tsetbal price"]
+              else [])
+           | _, _ => [s!"BAD\t{seq}\tsetbal translation"])
+      | _ => []
+    d ++ mons
+  | _, _ => [s!"BAD\t{seq}\tsetbal args"]
+
 def handle1 (seq : String) (f : List String) : List String :=
   match f with
   | ["pool.deposit", rx, ry, ps, x, y, o, ax, ay, pc] => handleDeposit seq [rx, ry, ps, x, y] o [ax, ay, pc]
   | ["pool.withdraw", rx, ry, ps, pc, fee, o, x, y] => handleWithdraw seq [rx, ry, ps, pc, fee] o [x, y]
   | "pool.create" :: x :: y :: mn :: mx :: ip :: rest => handleCreate seq [x, y, mn, mx, ip] rest
   | "pool.derive" :: rx :: ry :: mn :: mx :: rest => handleDerive seq [rx, ry, mn, mx] rest
+  | "pool.setbal" :: rx0 :: ry0 :: mn :: mx :: rx :: ry :: dv :: rest => handleSetbal seq [rx0, ry0, mn, mx, rx, ry] dv rest
   | _ => [s!"BAD\t{seq}\tunknown pool line"]
 
 def handle (st : St) (seq : String) (f : List String) : St × List String := (st, handle1 seq f)
